@@ -107,13 +107,16 @@ def check_cells(sx, mesh, O, tag, any_face_order=False):
     sx.check(bool(good), "face<->cell, cell<->cell, vertex->cell answers agree with the cell list (i-th face opposite i-th vertex)" + tag)
 
 
-def check_edges(sx, mesh, O, sort_on, tag):
+def check_edges(sx, mesh, O, sort_on, tag, faces_first=False):
     c = mesh.connectivity
     good_sets, good_order = True, True
     for e, (a, b) in enumerate(O.edges):
         cells = [i for i, C in enumerate(O.cells) if a in C and b in C]
         faces = [i for i, F in enumerate(O.faces) if a in F and b in F]
-        gc, gf = list(c.edge_to_cell(e)), list(c.edge_to_face(e))
+        if faces_first:
+            gf, gc = list(c.edge_to_face(e)), list(c.edge_to_cell(e))
+        else:
+            gc, gf = list(c.edge_to_cell(e)), list(c.edge_to_face(e))
         good_sets &= sorted(gc) == cells and sorted(gf) == sorted(faces)
         if sort_on:
             interior = oracle.key2(a, b) not in O.border_edges
@@ -258,7 +261,7 @@ def explore(ncells, V, coords=False, groups=None, orders=3):
                     if g == "cells":
                         check_cells(sx, mesh, O, tag)
                     elif g == "edges":
-                        check_edges(sx, mesh, O, sort_on, tag)
+                        check_edges(sx, mesh, O, sort_on, tag, faces_first=sx.flag("edge_to_face_before_edge_to_cell"))
                     elif g == "border":
                         check_border(sx, mesh, O, tag)
                     else:
@@ -268,6 +271,55 @@ def explore(ncells, V, coords=False, groups=None, orders=3):
                     return
         finally:
             config.sort_neighborhoods = old
+    return h
+
+
+def _vol_first_queries(mesh):
+    c = mesh.connectivity
+    a, b = (int(x) for x in mesh.edges[0])
+    return [
+        ("face_to_cells", lambda: c.face_to_cells(0)), ("cell_to_face", lambda: c.cell_to_face(0)), ("cell_to_cell", lambda: c.cell_to_cell(0)),
+        ("other_face_side", lambda: c.other_face_side(0, 0)), ("common_face", lambda: c.common_face(0, len(mesh.cells) - 1)),
+        ("vertex_to_cell", lambda: c.vertex_to_cell(a)), ("in_cell_face_index", lambda: c.in_cell_face_index(0, 0)),
+        ("edge_to_face", lambda: c.edge_to_face(0)), ("edge_to_cell", lambda: c.edge_to_cell(0)), ("cell_to_edge", lambda: c.cell_to_edge(0)),
+        ("edge_id", lambda: c.edge_id(a, b)), ("face_id", lambda: c.face_id(*mesh.faces[0])), ("vertex_to_vertices", lambda: c.vertex_to_vertices(a)),
+        ("boundary_faces", lambda: mesh.boundary_faces), ("interior_faces", lambda: mesh.interior_faces), ("boundary_edges", lambda: mesh.boundary_edges),
+        ("interior_edges", lambda: mesh.interior_edges), ("boundary_vertices", lambda: mesh.boundary_vertices),
+        ("interior_vertices", lambda: mesh.interior_vertices), ("is_face_on_border", lambda: mesh.is_face_on_border(0)),
+        ("is_edge_on_border", lambda: mesh.is_edge_on_border(0)), ("is_vertex_on_border", lambda: mesh.is_vertex_on_border(a)),
+    ]
+
+
+N_VOL_FIRST = 22
+
+
+def fresh(ncells, V):
+    """every volume accessor as the very first query on a freshly built mesh, then again after all the others"""
+    def h(sx):
+        cells = meshgen.symbolic_tets(sx, ncells, V) if ncells == 1 else [(0, 1, 2, 3), (1, 2, 3, 4)]
+        sx.assume(oracle.tets_conforming(cells))
+        verts = meshgen.embed_tets(cells, V)
+        sx.assume(verts is not None)
+        which = sx.choice("first_query", N_VOL_FIRST)
+        mesh = meshgen.build(verts, (), (), cells)
+        qs = _vol_first_queries(mesh)
+        assert len(qs) == N_VOL_FIRST
+        name, fn = qs[which]
+        try:
+            first = fn()
+            first = sorted(first) if isinstance(first, (list, set)) else first
+        except Exception as e:
+            sx.check(False, "volume query %s fails on a freshly built mesh" % name, detail=repr(e))
+            return
+        for other, g in qs:
+            try:
+                g()
+            except Exception as e:
+                sx.check(False, "volume query %s fails on a mesh where %s was the first query" % (other, name), detail=repr(e))
+                return
+        again = fn()
+        again = sorted(again) if isinstance(again, (list, set)) else again
+        sx.check(first == again, "volume query %s answers the same on a fresh mesh and after other queries" % name, detail="%r vs %r" % (first, again))
     return h
 
 
@@ -315,6 +367,8 @@ def obligations(tier):
            Ob("orient-1tet", explore(1, 4, coords=True, groups=["boundary_mesh"], orders=1), covers=COVERS, split=4,
               note="outward orientation, symbolic coordinates, one tetrahedron"),
            ]
+    obs.append(Ob("fresh-1tet", fresh(1, 4), covers=COVERS, split=5, note="each volume accessor as first query, one tetrahedron (all labellings)"))
+    obs.append(Ob("fresh-2tet", fresh(2, 5), covers=COVERS, note="each volume accessor as first query, two tetrahedra"))
     if not q:
         obs.append(Ob("orient-2tet", explore(2, 5, coords=True, groups=["boundary_mesh"], orders=1), covers=COVERS, split=8,
                       required=False, note="outward orientation, symbolic coordinates, two tetrahedra"))
